@@ -402,6 +402,7 @@ def validate_trace(out, module, cfg, trace_path, label, *, timeout=3000, env=Non
     offset = 0
     cur = events
     rejections = 0
+    new_violations = 0
     total_matched = 0
     header = []          # events that must precede every (re)validation, e.g. the current 'world'
     while True:
@@ -436,9 +437,11 @@ def validate_trace(out, module, cfg, trace_path, label, *, timeout=3000, env=Non
         payload = {"kind": "trace", "module": module, "cfg": cfg, "events": sl}
         if replay_extra:
             payload.update(replay_extra)
-        out.violation(what, payload, signature=sig)
+        is_new = out.violation(what, payload, signature=sig)
         total_matched += max(lo, 0)
-        if rejections >= max_report:
+        if is_new:
+            new_violations += 1
+        if new_violations >= max_report or rejections >= 400:
             break
         # continue after the rejected run
         header = [w] if w is not None else []
